@@ -69,6 +69,8 @@ def explore(cdef, interp, max_paths=400):
             info["undecided"].append("recursion limit")
         except Exception as e:  # an error inside the contract text on this path (e.g. after the code changed shape)
             info["undecided"].append(f"contract error on a path: {type(e).__name__}: {e}")
+            if os.environ.get("VERIF_DEBUG"):
+                traceback.print_exc()
         # cover for this path: hypotheses satisfiable
         if len(c.obligations) > n_before:
             last = c.obligations[-1]
@@ -76,6 +78,37 @@ def explore(cdef, interp, max_paths=400):
     Ctx.current = None
     info["ctx"] = c
     return c.obligations, info
+
+
+def explore_worker(args):
+    """runs in a forked process: explore one contract and return picklable obligations (SMT-LIB text)"""
+    prop, name = args
+    from .sym import Obligation
+    try:
+        contracts = load_contracts(prop)
+        cd = [c for c in contracts if c.name == name][0]
+        interp = Interp(make_models())
+        N.USED.clear()
+        t0 = time.time()
+        obs, info = explore(cd, interp)
+        covers = []
+        for ob in info["covers"]:
+            cv = Obligation(ob.name + "#cover", None, None, ob.path, kind="cover")
+            cv.smt2 = to_smt2(ob.hyps, z3.BoolVal(False))
+            cv.meta["contract"] = name
+            covers.append(cv)
+        for ob in obs:
+            ob.smt2 = to_smt2(ob.hyps, ob.goal)
+            ob.meta["contract"] = name
+            ob.meta["goal"] = str(ob.goal)[:300]
+            ob.hyps, ob.goal = None, None
+        info = {k: v for k, v in info.items() if k not in ("ctx", "covers")}
+        info["explore_s"] = round(time.time() - t0, 2)
+        return {"name": name, "obs": obs, "covers": covers, "info": info, "sources": interp.sources,
+                "dropped": sorted(interp.dropped), "used": sorted(N.USED), "error": None}
+    except Exception as e:
+        return {"name": name, "obs": [], "covers": [], "info": {"paths": 0, "undecided": [], "aborted": 0},
+                "sources": {}, "dropped": [], "used": [], "error": f"{type(e).__name__}: {e}\n{traceback.format_exc(limit=8)}"}
 
 
 def native_runs(cdef, interp, seed, n_runs, inputs=None):
@@ -152,40 +185,39 @@ def run(prop, tier="quick", seed=0, replay=None, only=None):
     all_obs = []
     infos = {}
     undecided = []
+    covers = []
+    sym_contracts = [cd for cd in contracts if cd.symbolic]
     for cd in contracts:
         if not cd.symbolic:
-            infos[cd.name] = {"paths": 0, "undecided": [], "aborted": 0, "covers": []}
-            continue
-        try:
-            obs, info = explore(cd, interp)
-        except Exception as e:
-            print(f"CHECKER-ERROR exploring {cd.name}: {type(e).__name__}: {e}")
-            traceback.print_exc()
-            return 3
-        for ob in obs:
-            ob.meta["contract"] = cd.name
-        infos[cd.name] = info
-        all_obs.extend(obs)
-        for u in info["undecided"]:
-            undecided.append(f"{cd.name}: {u}")
-        if len(obs) < cd.min_obligations and not info["undecided"]:
-            print(f"CHECKER-ERROR contract {cd.name} generated {len(obs)} obligations (< {cd.min_obligations})")
-            return 3
+            infos[cd.name] = {"paths": 0, "undecided": [], "aborted": 0}
+    if sym_contracts:
+        import multiprocessing as mp
+        jobs = [(prop, cd.name) for cd in sym_contracts]
+        if len(jobs) == 1 or os.environ.get("VERIF_SERIAL"):
+            results = [explore_worker(j) for j in jobs]
+        else:
+            with mp.get_context("fork").Pool(min(16, len(jobs))) as pl:
+                results = pl.map(explore_worker, jobs)
+        for cd, r in zip(sym_contracts, results):
+            if r["error"]:
+                print(f"CHECKER-ERROR exploring {cd.name}: {r['error']}")
+                return 3
+            infos[cd.name] = r["info"]
+            all_obs.extend(r["obs"])
+            covers.extend(r["covers"])
+            interp.sources.update(r["sources"])
+            interp.dropped.update(r["dropped"])
+            N.USED.update(r["used"])
+            for u in r["info"]["undecided"]:
+                undecided.append(f"{cd.name}: {u}")
+            if len(r["obs"]) < cd.min_obligations and not r["info"]["undecided"]:
+                print(f"CHECKER-ERROR contract {cd.name} generated {len(r['obs'])} obligations (< {cd.min_obligations})")
+                return 3
 
-    for ob in all_obs:
-        ob.smt2 = to_smt2(ob.hyps, ob.goal)
     pool = Pool()
     pool.discharge(all_obs, timeout_s=timeout, second=(tier == "thorough"))
 
     # vacuity: the hypotheses of every explored path must be satisfiable (cover / canary)
-    covers = []
-    from .sym import Obligation
-    for cd in contracts:
-        for ob in infos[cd.name]["covers"]:
-            cv = Obligation(ob.name + "#cover", ob.hyps, z3.BoolVal(False), ob.path, kind="cover")
-            cv.smt2 = to_smt2(ob.hyps, z3.BoolVal(False))
-            cv.meta["contract"] = cd.name
-            covers.append(cv)
     pool.discharge(covers, timeout_s=timeout)
     vacuous = [cv for cv in covers if cv.verdict == "unsat"]
     if vacuous:
@@ -344,7 +376,7 @@ def build_evidence(prop, tier, seed, contracts, all_obs, by_name, proved, infos,
         o = obs[0]
         samples.append({"obligation": n, "instances": len(obs), "verdict": o.verdict, "backend": o.backend,
                         "smt_bytes": len(o.smt2 or ""), "time_s": round(o.time, 3), "path": o.path,
-                        "goal": str(o.goal)[:300]})
+                        "goal": o.meta.get("goal", "")})
     by_backend = {}
     for o in all_obs:
         by_backend[o.backend] = by_backend.get(o.backend, 0) + 1
@@ -382,6 +414,7 @@ def build_evidence(prop, tier, seed, contracts, all_obs, by_name, proved, infos,
             "covers": {"paths_checked": len(covers), "satisfiable": sum(1 for c in covers if c.verdict == "sat"),
                        "unknown": sum(1 for c in covers if c.verdict not in ("sat", "unsat"))},
             "paths": {k: v["paths"] for k, v in infos.items()},
+            "explore_s": {k: v.get("explore_s") for k, v in infos.items() if v.get("explore_s") is not None},
             "bounded": bounded,
             "dropped_by_extraction": sorted(interp.dropped)[:40] + ["docstrings", "f-string contents of messages"],
             "known_findings": sorted({k.get("what", n) for k, n in known_hits}),
